@@ -400,6 +400,58 @@ def attrvalue_cases():
                        family='attrvalue:in:%s=%s' % (name, val))
 
 
+# ------------------------------------------------- "raises the same errors"
+
+def error_sources():
+    """Multi-line sources that do not compile: every invalid construct of
+    C06's families, spread over several lines, at top level and inside
+    blocks, with other tags following on later lines."""
+    from checks import c06
+    for rule, src in c06.invalid_families():
+        if '"' in src and '>' in src.split('"', 1)[1].rsplit('"', 1)[0]:
+            continue
+        nl = re.sub(r'(<[^<>]*>)', lambda m: m.group(1) + '\n', src)
+        for p in (0, 2):
+            head = 'first\n' * p
+            yield rule, head + nl + 'tail\n<dtml-var x>\n'
+            yield rule, head + '<dtml-with o>\n\n' + nl + \
+                '\n</dtml-with>\n<dtml-var x>\nend'
+            yield rule, head + '<dtml-if a>\n<dtml-var x>\n<dtml-else>\n' \
+                + nl + '\n</dtml-if>\n\n<dtml-var y>'
+            yield rule, head + '<dtml-in s>\n<dtml-let a=b>\n' + nl + \
+                '</dtml-let>\n\n</dtml-in>'
+
+
+def check_error(case):
+    """['error', rule, dtml source] -> the three spellings are rejected
+    alike: same class, same message, same line."""
+    from checks import c06
+    res = {}
+    for sx in SYNTAXES:
+        s2 = c06.translate(case[2], sx)
+        try:
+            t = harness.make_template(s2, sx)
+            t.cook()
+            res[sx] = ('ok',)
+        except Exception as e:
+            msg = e.args[0] if e.args and isinstance(e.args[0], str) \
+                else str(e)
+            m = c06.MSG.match(msg)
+            res[sx] = (type(e).__name__, m.group('mess') if m else msg[:200],
+                       int(m.group('line')) if m else None)
+    if res['dtml'] == ('ok',) and res['ssi'] == ('ok',) and \
+            res['epfs'] == ('ok',):
+        return 'skip'
+    for other in ('ssi', 'epfs'):
+        if res['dtml'] != res[other]:
+            what = 'class' if res['dtml'][0] != res[other][0] else (
+                'message' if res['dtml'][1] != res[other][1] else 'line')
+            return ('compile-error:%s:dtml-vs-%s' % (what, other),
+                    '%r: dtml %r, %s %r' % (case[2], res['dtml'], other,
+                                            res[other]))
+    return None
+
+
 def strategy():
     from hypothesis import strategies as st
     return st.fixed_dictionaries(dict(
@@ -416,6 +468,7 @@ def plan(tier, seed):
     shards.append(dict(kind='entities'))
     shards.append(dict(kind='elseblocks'))
     shards.append(dict(kind='attrvalues'))
+    shards.append(dict(kind='errors'))
     return shards
 
 
@@ -432,6 +485,17 @@ def run_shard(shard):
                              distinct_by_construction=True)
                     for b, msg in check_entity(list(mods), name):
                         acc.fail(b, case, msg)
+        return acc.result()
+    if shard['kind'] == 'errors':
+        for rule, src in error_sources():
+            case = ['error', rule, src]
+            bad = check_error(case)
+            if bad == 'skip':
+                continue
+            acc.case(case, True, klass='compile-error:' + rule,
+                     distinct_by_construction=True)
+            if bad:
+                acc.fail(bad[0], case, bad[1])
         return acc.result()
     if shard['kind'] in ('elseblocks', 'attrvalues'):
         for case in (elseblock_cases() if shard['kind'] == 'elseblocks'
@@ -462,6 +526,9 @@ def run_shard(shard):
 
 
 def replay(case):
+    if isinstance(case, list) and case and case[0] == 'error':
+        f = check_error(case)
+        return f if f and f != 'skip' else None
     if isinstance(case, list) and case and case[0] == 'entity':
         f = check_entity(case[1], case[2])
     else:
